@@ -52,10 +52,10 @@ CFG = {'module': 'Dnp3.Props.C01',
                   'object-header walk, lazy iterators and the outstation session, tied to the code by the '
                   'regenerated tables and by the differential engines link, transport, parse, outstation '
                   '(properties C06-C09, C12)',
-                  'the database component behind the `Db` interface is treated as opaque by the session-level '
-                  'C01 theorems; the one database fact they need (exact counters, hence no underflow in '
-                  'unwritten_classes) is the database model\'s counters_exact (tied by engines db / '
-                  'outstationdb, properties C03 / C13)',
+                  'the database component behind the `Db` interface is treated as opaque by the '
+                  'session-level C01 theorems; the one database fact they need (exact counters, hence no '
+                  "underflow in unwritten_classes) is the database model's counters_exact (tied by engines "
+                  'db / outstationdb, properties C03 / C13)',
                   'harness/src/eng_rawbytes.rs (reference framer, reference CRC, D1/D2/D3 cause predicates, '
                   'probe) and hooks/trace_sink.rs (formatting tracing subscriber; observation only)'],
  'assumptions': ['role master: search only (engine master, monitors no_panic / no_spin on the real '
@@ -74,20 +74,20 @@ CFG = {'module': 'Dnp3.Props.C01',
                'transport/real/assembler.rs cannot fail); every accepted object header consumes >= 3 octets; '
                'the lazy iterators cannot overflow (D2 repaired: fix 320622f); outstation_step_no_panic, '
                'unconditional over reachable states: for every configuration, every state of every trace '
-               'from construction and every input the outstation session model neither panics nor leaves '
-               'the task dead (D1 repaired: an OPERATE whose echo does not fit the solicited buffer is '
-               'answered with the truncated echo like SELECT / DIRECT_OPERATE, no request handler returns a '
-               'panic; D3 repaired: the event-counter subtraction of unwritten_classes cannot underflow on '
-               'a database reachable from a fresh one, counters_exact / no_counter_underflow), and its idle '
-               'loop never needs a 4th consecutive pass; plus the complete, regenerated panic-site '
-               'inventory of the anchor files with every site classified and no known-finding site left '
-               '(decide). Search: the rawbytes engine against the real task',
+               'from construction and every input the outstation session model neither panics nor leaves the '
+               'task dead (D1 repaired: an OPERATE whose echo does not fit the solicited buffer is answered '
+               'with the truncated echo like SELECT / DIRECT_OPERATE, no request handler returns a panic; D3 '
+               'repaired: the event-counter subtraction of unwritten_classes cannot underflow on a database '
+               'reachable from a fresh one, counters_exact / no_counter_underflow), and its idle loop never '
+               'needs a 4th consecutive pass; plus the complete, regenerated panic-site inventory of the '
+               'anchor files with every site classified and no known-finding site left (decide). Search: the '
+               'rawbytes engine against the real task',
  'level_note': 'proof: the outstation no-panic theorem is unconditional over reachable states; D1, D2 and D3 '
-               'are repaired (regression corpus, the cause= tags stay in the monitors); trusted: Lean kernel, translate.py '
-               '+ gen_panic_sites.py, the hand classification, the correspondence harness; the Rust is '
-               'modelled, not verified; master role covered by search only (engine master: no_panic / '
-               'no_spin), no master no-panic theorem',
+               'are repaired (regression corpus, the cause= tags stay in the monitors); trusted: Lean '
+               'kernel, translate.py + gen_panic_sites.py, the hand classification, the correspondence '
+               'harness; the Rust is modelled, not verified; master role covered by search only (engine '
+               'master: no_panic / no_spin), no master no-panic theorem',
  'engine_monitors': {'master': ['no_panic', 'no_spin'],
                      'parse': ['no_panic'],
                      'outstation': ['no_panic', 'no_stall'],
-                     'outstationdb': ['no_panic', 'no_stall']}}
+                     'outstationdb': ['no_panic', 'no_stall', 'series_makes_progress']}}
